@@ -169,6 +169,8 @@ class RefBlockServer(Peer):
         if mb and mb[1] == num:
             if mb[0] == "b2-short" and more:
                 chunk = chunk[:-1]
+            elif mb[0] == "b2-empty" and more:
+                chunk = b""          # "more to come", but not a single byte in this block
             elif mb[0] == "b2-skip":
                 rnum = num + 1
                 chunk = rep[rnum * size:(rnum + 1) * size]
